@@ -80,6 +80,7 @@ type Layout struct {
 	// Filters[j%len] is the filter chain (decode order) of the j-th content stream; names as in §7.4.
 	Filters   [][]string `json:"filters,omitempty"`
 	Predictor bool       `json:"predictor,omitempty"` // Flate stages use PNG predictor 12, Columns 4 (data padded with blanks)
+	TIFFPred  bool       `json:"tiff_pred,omitempty"` // with Predictor: TIFF predictor 2, Columns 8, instead of PNG predictor 12
 	// Length: "direct", "before" (indirect, the integer object precedes the stream in the file),
 	// "after" (follows it) — §7.3.8.2 allows an indirect /Length.
 	Length         string `json:"length,omitempty"`
@@ -88,6 +89,7 @@ type Layout struct {
 	Split            int  `json:"split,omitempty"`
 	SplitTight       bool `json:"split_tight,omitempty"`       // no white space at the cut: the token boundary IS the stream boundary
 	EmptyPart        bool `json:"empty_part,omitempty"`        // every page has one more content stream with no data at all (/Length 0)
+	Unbalanced       bool `json:"unbalanced,omitempty"`        // page leaves also hang directly below inner /Pages nodes (first and last page of each subtree): leaves at different depths
 	ContentsIndirect bool `json:"contents_indirect,omitempty"` // /Contents refers to an array object instead of holding the array
 	// Pad: white space (legal between any two tokens, §7.2.2) appended to the first content stream of
 	// every page until it is at least this long — long streams exercise buffered reading.
@@ -193,6 +195,7 @@ type (
 		// Chain is the filter chain in decode order; nil = unfiltered.
 		Chain []string
 		Pred  bool
+		Pred2 bool // TIFF predictor 2 instead of PNG predictor 12
 		// Array1: a single filter is written as a one-element array
 		Array1 bool
 		// NoIndirectLength forces a direct /Length (object streams and xref streams, §7.5.7/§7.5.8.2).
